@@ -490,6 +490,7 @@ type axiom struct{ trigger, text string }
 var coreAxioms = []axiom{
 	{"b.empty", "(assert (= (b.len b.empty) 0))"},
 	{"b.len", "(assert (forall ((s Bytes)) (! (>= (b.len s) 0) :pattern ((b.len s)))))"},
+	{"b.len", "(assert (forall ((s Bytes)) (! (=> (= (b.len s) 0) (= s b.empty)) :pattern ((b.len s)))))"},
 	{"b.cat", "(assert (forall ((a Bytes) (b Bytes)) (! (= (b.len (b.cat a b)) (+ (b.len a) (b.len b))) :pattern ((b.cat a b)))))"},
 	{"b.cat", "(assert (forall ((a Bytes)) (! (= (b.cat a b.empty) a) :pattern ((b.cat a b.empty)))))"},
 	{"b.cat", "(assert (forall ((a Bytes)) (! (= (b.cat b.empty a) a) :pattern ((b.cat b.empty a)))))"},
